@@ -1245,13 +1245,15 @@ func genFilterCase(rng *Rng) c08FilterCase {
 			f.Kind, f.Group, f.Version = kind, "", ""
 			f.Create = rng.Bool()
 		}
-		// Domain restriction: all rows with the same path carry the same create flag. A create=false row that
-		// ends at a null scalar appends the entry to the Content of that scalar (invisible); a later create=true
-		// row for the same path retags the node as a mapping and the hidden entries surface. Hidden content of a
-		// scalar is not representable in the model's node type (Yaml/Node.v); the default tables never contain
-		// such a pair of rows for one object and FsSlice.MergeOne rejects it ("conflicting fieldspecs").
+		// Domain restriction: rows whose paths are equal or prefix-related carry the same create flag. A
+		// create=false row that ends at a null scalar appends the entry to the Content of that scalar
+		// (invisible); a later create=true row for the same path - or one passing through it - retags the node
+		// as a mapping and the hidden entries surface. Hidden content of a scalar is not representable in the
+		// model's node type (Yaml/Node.v); the default tables never contain such a pair of rows for one object
+		// and FsSlice.MergeOne rejects the equal-path case ("conflicting fieldspecs"). The theorems exclude it
+		// through rows_ok (no matching row may extend the read path) and uniform_create.
 		for _, g := range c.Fss {
-			if g.Path == f.Path {
+			if g.Path == f.Path || strings.HasPrefix(f.Path, g.Path+"/") || strings.HasPrefix(g.Path, f.Path+"/") {
 				f.Create = g.Create
 			}
 		}
